@@ -123,7 +123,55 @@ def evaluate(case):
                 break
         if len(viol) > 3:
             break
+    # 2-D arrays (C-ordered, Fortran-ordered, transposed view): same element-wise law, same shape
+    if layout == "contiguous" and dtype == "f8" and fname != "oil_compressibility_undersat_Spivey" and len(viol) < 2:
+        for combo in itertools.product(vals, repeat=4):
+            for lay2 in ("C", "F", "T"):
+                n_eval += 1
+                base2 = np.array(combo, dtype=dtype).reshape(2, 2)
+                arr2 = {"C": base2, "F": np.asfortranarray(base2), "T": base2.T}[lay2]
+                keep = arr2.copy()
+                try:
+                    out2 = np.asarray(f_arr(o, arr2))
+                except Exception as e:  # noqa: BLE001
+                    viol.append(V("array2d/raises", f"{fname} on a 2x2 {lay2}-ordered array raises {type(e).__name__}: {e}",
+                                  case=dict(case, values=list(combo), layout2=lay2)))
+                    break
+                ref2 = np.array([[scal[v] if not isinstance(scal[v], Exception) else np.nan for v in row] for row in keep.tolist()])
+                if out2.shape != keep.shape or not np.array_equal(arr2, keep):
+                    viol.append(V("array2d/shape-or-input", f"{fname} on a 2x2 {lay2}-ordered array: result shape {out2.shape}, "
+                                  f"input modified: {not np.array_equal(arr2, keep)}", case=dict(case, values=list(combo), layout2=lay2)))
+                    break
+                if not np.all(np.abs(out2 - ref2) <= ULPS * eps * np.abs(ref2)):
+                    viol.append(V("array2d/element", f"{fname} on the 2x2 {lay2}-ordered array {keep.tolist()} returns "
+                                  f"{out2.tolist()}, scalar calls give {ref2.tolist()}", case=dict(case, values=list(combo), layout2=lay2)))
+                    break
+            if len(viol) >= 2:
+                break
     return {"violations": viol[:2], "evals": n_eval, "splits": len(seen_split), "outcome": f"{dtype}:{layout}"}
+
+
+def eval_history(case):
+    """Several fluids evaluated one after another in one process with arrays of the same length: each
+    result must still equal that fluid's own scalar calls (nothing is carried over between fluids)."""
+    fns = functions()
+    viol, n = [], 0
+    for fname in ("b_o_Standing", "oil_compressibility_undersat_Spivey", "solution_gor_Standing", "Fluid.oil_FVF",
+                  "Fluid.oil_viscosity"):
+        f_arr, f_sca = fns[fname]
+        for o in [tuple(x) for x in case["oils"]]:
+            vals, pb = alphabet(o, "f8", 0.0)
+            arr = np.array([1.2 * pb, 1.6 * pb, 2.2 * pb, 0.5 * pb, 0.8 * pb][: case["n"]] if fname != "oil_compressibility_undersat_Spivey"
+                           else [1.2 * pb, 1.6 * pb, 2.2 * pb, 1.1 * pb, 2.4 * pb][: case["n"]])
+            out = np.asarray(f_arr(o, arr), dtype=float)
+            ref = np.array([float(f_sca(o, float(x))) for x in arr])
+            n += 1
+            if not np.all(np.abs(out - ref) <= ULPS * np.finfo(float).eps * np.abs(ref)):
+                viol.append(V("array/after-other-fluid", f"{fname} for oil {o}, evaluated after other oils with arrays of the "
+                              f"same length, returns {out.tolist()}; its own scalar calls give {ref.tolist()}",
+                              case=dict(case, fn=fname, oil=list(o))))
+                break
+    return {"violations": viol[:2], "evals": n, "splits": 0, "outcome": "history"}
 
 
 def cases(tier, seed):
@@ -133,9 +181,15 @@ def cases(tier, seed):
             for f, o, d, l in itertools.product(list(functions().keys()), OILS, DTYPES, LAYOUTS)]
 
 
+def dispatch(case):
+    return eval_history(case) if case.get("kind") == "history" else evaluate(case)
+
+
 def run(ctx):
     cs = cases(ctx.tier, ctx.seed)
-    res = ctx.pmap(evaluate, cs, chunksize=1)
+    cs += [{"kind": "history", "oils": [list(o) for o in OILS[:3]], "n": n} for n in (3, 5)]
+    cs += [{"kind": "history", "oils": [list(o) for o in OILS[:3]][::-1], "n": 3}]
+    res = ctx.pmap(dispatch, cs, chunksize=1)
     cov = {
         "evaluations": sum(r.get("evals", 0) for r in res),
         "distinct_nontrivial": sum(r.get("splits", 0) for r in res),
@@ -151,6 +205,7 @@ def run(ctx):
 
 
 def replay(case):
-    vals = case.pop("values", None)
-    r = evaluate(case)
-    return r["violations"]
+    case = {k: v for k, v in case.items() if k not in ("values", "layout2")}
+    if case.get("kind") == "history":
+        case = {k: v for k, v in case.items() if k not in ("fn", "oil")}
+    return dispatch(case)["violations"]
